@@ -23,6 +23,15 @@ CHECKS = {
  "C06": ("Lean theorem C06: the invariant Safe (no negative balance; every outstanding grant backed by reserved money) is preserved by every operation of a compliant consumer, for unbounded histories; C06_grant_limited/backed characterise the grant (= floor(available money / unit cost) with final-unit indication exactly when money is short). Both are checked on the real code's trace; the one known finding (reservation shared by two sessions) is classified by a committed witness.",
          "Trusted: as C01. Compliance is per (subscriber, rating group) ledger - the granularity at which the CHF keeps quota; per-session-compliant overdrafts are the listed known finding.",
          "Lean 4 invariant proof with ghost ledger + correspondence + oracle on implementation traces", "DESIGN.md §5 C06"),
+ "C12": ("Lean theorems on Charging.step: status set {201,200,204,400,404}; a 4xx answer leaves the whole state unchanged (C12_reject_no_effect); unknown subscriber -> 400, unknown/stale/foreign reference -> 404; accepted create -> 201 with a Location reference that keys the session map and echoed sequence number; update 200 + echo; release 204; accepted recharge -> exactly one notification to the registered URI naming the rating group. Oracle on the real gin router's responses and byte-identical state dumps across rejections.",
+         "Trusted: Lean kernel; charging model (exact correspondence incl. statuses, Location, MUIs, notifications, records); gin/openapi/h2c modelled.",
+         "Lean 4 proofs about the step function + correspondence + oracle on implementation traces", "DESIGN.md §5 C12"),
+ "C10": ("Lean theorems: the reference construction (supi ++ name ++ '-' ++ decimal(seq)) is injective in the sequence number for arbitrary byte strings (sessionId_seq_injective, via split_last_dash and decimal_injective); the invariant SidsBelow (every live reference carries a smaller sequence number) holds after every history (induction), hence every new reference differs from all live references of all subscribers (C10). Oracle on the implementation: adversarial names (digit tails, empty, '-', SUPI prefixes), reference returned vs all live ones, usage lands in a record carrying the addressed reference.",
+         "Trusted: Lean kernel; model correspondence; strconv.FormatUint modelled by `decimal`; concurrent creates are outside this sequential model (see C09).",
+         "Lean 4 injectivity + invariant proof + correspondence + oracle", "DESIGN.md §5 C10"),
+ "C02": ("Lean theorem C02_timestamp (TS 32.298 BCD timestamp read back by an independent reader for every civil time and every zone offset of whole minutes within +/-14h) and bookkeeping theorems of the charging model (usage appended unchanged and in order to the designated record, identity fields kept, rejected requests and other subscribers untouched, release cause 0). The exactly-once-per-session statement over whole histories is evaluated as an oracle on the implementation's trace (tracer = local sequence number) after every operation; it is not yet a Lean theorem over histories (partial).",
+         "Trusted: Lean kernel; model correspondence (records compared field by field after every op); MultiUnitUsageToCdr validated by correspondence only. The history-level refinement (sessUsage = spec log) is checked on traces, proved only at step level.",
+         "Lean 4 proofs (timestamp codec, step-level bookkeeping) + correspondence + exactly-once oracle on traces", "DESIGN.md §5 C02"),
 }
 PENDING_REASON = "check not built yet in this revision (work in progress; DESIGN.md plans a Lean model + correspondence check for it)"
 
